@@ -664,10 +664,12 @@ func (m *intraProxyManager) ensureStream(
 		if err := recv.Run(ctx, m.shardManager, ps.conn); err != nil {
 			m.loggers.Get(logging.ShardRouting).Error("intraProxyStreamReceiver.Run error", tag.Error(err))
 		}
-		// remove the receiver from the peer state
+		// remove the receiver from the peer state, unless the pair has been re-created meanwhile
 		m.streamsMu.Lock()
-		delete(ps.receivers, key)
-		delete(ps.recvShutdown, key)
+		if ps.receivers[key] == recv {
+			delete(ps.receivers, key)
+			delete(ps.recvShutdown, key)
+		}
 		m.streamsMu.Unlock()
 	}()
 	return nil
